@@ -1,1 +1,2 @@
-(* Props/C19.v -- stub, to be filled *)
+(* C19 statements pinned here *)
+From A1 Require Import Uper.Reader.
